@@ -177,7 +177,9 @@ pub proof fn lemma_prefix_ext(t: Seq<u8>, i: int, l: int)
 
 // ------------------------------ real code under contract ------------------------------
 //@ item lx struct Token strip_attrs
-//@ item lx struct Matcher
+//@ item lx struct MatcherBuilder pub_fields
+//@ item lx impl MatcherBuilder only=matcher
+//@ item lx struct Matcher pub_fields
 //@ item lx impl Matcher
 //@ item lx impl Iterator@Matcher
 
